@@ -173,8 +173,11 @@ class PolygonPixelRegion(PixelRegion):
         """
         from matplotlib.patches import Polygon
 
-        xy = np.vstack([self.vertices.x - origin[0],
-                        self.vertices.y - origin[1]]).transpose()
+        # in float64: unsigned integer vertices (or origin) would wrap
+        # around
+        xy = np.vstack([np.subtract(self.vertices.x, origin[0], dtype=float),
+                        np.subtract(self.vertices.y, origin[1],
+                                    dtype=float)]).transpose()
 
         mpl_kwargs = self.visual.define_mpl_kwargs(self._mpl_artist)
         mpl_kwargs.update(kwargs)
